@@ -13,3 +13,8 @@ func VerifBuildPathResolver(paths []string) (func(relPath string) string, error)
 func VerifComputeParallelBudget(fileCount, requestedStreams, connections int, allowStriping bool) (int, int) {
 	return computeParallelBudget(fileCount, requestedStreams, connections, allowStriping)
 }
+
+// VerifBuildWebSocketURL exposes the URL builder the clients use to connect to the signaling server.
+func VerifBuildWebSocketURL(serverURL, joinCode, peerID, role string, maxReceivers int) (string, error) {
+	return buildWebSocketURL(serverURL, joinCode, peerID, role, maxReceivers)
+}
